@@ -55,6 +55,10 @@ func (p *connipc) Recv() (*Message, error) {
 	if _, err = p.c.Read(one[:]); err != nil {
 		return nil, err
 	}
+	if one[0] != 1 {
+		// Only message type 1 (a normal, in-band message) is defined.
+		return nil, mangos.ErrBadHeader
+	}
 	if err = binary.Read(p.c, binary.BigEndian, &sz); err != nil {
 		return nil, err
 	}
